@@ -59,6 +59,11 @@ def run_exchange(case):
     A = W.stack('A', **kw)
     ca = W.ca(A, STACK, identity_number=1)
     W.listen_ca(ca, 'A')
+    # an unrelated periodic application timer on the stack under test in a quarter of the exchanges (its passes interleave with the transfer's)
+    bgr = random.Random(case['seed'] ^ 0xB6)
+    bg_timer = bgr.choice([0.004, 0.07, 0.3, 1.0]) if bgr.random() < 0.25 else None
+    if bg_timer:
+        A.ecu.add_timer(bg_timer, lambda cookie: True)
     findings = []
     size = case['size']
     pay = [rng.randrange(256) for _ in range(size)]
@@ -103,7 +108,7 @@ def run_exchange(case):
     sn = SN.sniff(layer, W.bus.frames)
     expect_failure = bool(case.get('late_after_hold'))
     obs = dict(exchanges=1, frames=len(W.bus.frames), cts_checked=0, dt_checked=0, holds_exercised=0, bam_gaps_measured=0, cmdt_gaps_measured=0,
-               stack_originator=0, stack_responder=0, zero_latency=1 if case['zero'] else 0, bam_gap_min_us_max=0, bam_gap_max_ms_max=0)
+               stack_originator=0, stack_responder=0, zero_latency=1 if case['zero'] else 0, background_timer=1 if bg_timer else 0, bam_gap_min_us_max=0, bam_gap_max_ms_max=0)
     for p in W.liveness_problems():
         findings.append((p['kind'], '%s %s at %s' % (p['thread'], p['exc'], p['where'])))
     # ---- sniffer problems caused by frames of the stack(s) under test -----------------------------------------
